@@ -232,8 +232,8 @@ def randomize(model, v: Vals):
                     hi = c.upper_bound.to(p.dtype)
                     pos = bool((lo >= 0).all())
                     a, b = (0.3, 2.0) if pos else (-1.0, 1.0)
-                    wlo = torch.maximum(lo + 1e-3 * (1 + lo.abs()), torch.full_like(lo, a))
-                    whi = torch.minimum(hi - 1e-3 * (1 + hi.abs()), torch.full_like(hi, b))
+                    wlo = torch.where(torch.isfinite(lo), lo + 1e-3 * (1 + lo.abs()), torch.full_like(lo, a)).clamp_min(a)
+                    whi = torch.where(torch.isfinite(hi), hi - 1e-3 * (1 + hi.abs()), torch.full_like(hi, b)).clamp_max(b)
                     whi = torch.maximum(whi, wlo)
                     target = wlo + (whi - wlo) * v.t(p.shape, 0.0, 1.0)
                     p.copy_(c.inverse_transform(target))
@@ -497,6 +497,184 @@ register("exact.linear", "exact", "exact.kernels", _simple_arch(), _build_linear
 register("exact.polynomial", "exact", "exact.kernels", _simple_arch(lambda p: {"power": p.int(1, 3)}), _build_poly)
 register("exact.cosine", "exact", "exact.kernels", _simple_arch(), _build_cosine)
 register("exact.constant", "exact", "exact.kernels", _simple_arch(lambda p: {"sum": p.bool()}), _build_constant)
+
+
+# ---- spectral / random-feature kernels ---------------------------------------------------------------
+def _build_sm(arch, v, data):
+    D = Deco(arch["deco"], v)
+    d, q = arch["d"], arch["q"]
+    bs = torch.Size(arch.get("batch", []))
+    k = K.SpectralMixtureKernel(num_mixtures=q, ard_num_dims=d, batch_shape=bs, **D.kw("mixture_scales"), **D.kw("mixture_means"), **D.kw("mixture_weights"))
+    if arch["init"] == "from_data":
+        k.initialize_from_data(data["train_inputs"][0], data["y"].reshape(-1, data["y"].shape[-1])[0])
+    elif arch["init"] == "from_data_empspect" and not bs:
+        k.initialize_from_data_empspect(data["train_inputs"][0], data["y"])
+    return finish_exact(arch, v, D, data, k)
+
+
+def _build_sd(arch, v, data):
+    D = Deco(arch["deco"], v)
+    kw, dk = stationary_kwargs(dict(arch, ard=False, ad=False), v, D)
+    k = K.SpectralDeltaKernel(num_dims=arch["d"], num_deltas=arch["deltas"], **D.kw("Z", prior=False), **kw)
+    return finish_exact(arch, v, D, data, maybe_scale(arch, D, k))
+
+
+def _build_rff(lazy):
+    def build(arch, v, data):
+        D = Deco(arch["deco"], v)
+        kw, dk = stationary_kwargs(dict(arch, ad=False), v, D)
+        k = K.RFFKernel(num_samples=arch["samples"], num_dims=None if lazy else arch["d"], **kw)
+        return finish_exact(arch, v, D, data, maybe_scale(arch, D, k))
+
+    return build
+
+
+register("exact.spectral_mixture", "exact", "exact.kernels",
+         _simple_arch(lambda p: {"q": p.int(1, 3), "init": p.choice(["values", "from_data", "from_data_empspect"]), "lik": "Gaussian"}), _build_sm)
+register("exact.spectral_delta", "exact", "exact.kernels", _simple_arch(lambda p: {"deltas": p.int(3, 8)}), _build_sd, random_buffer=True)
+register("exact.rff_eager", "exact", "exact.kernels", _simple_arch(lambda p: {"samples": p.int(2, 9)}), _build_rff(False), random_buffer=True)
+register("exact.rff_lazy", "exact", "exact.kernels", _simple_arch(lambda p: {"samples": p.int(2, 9)}), _build_rff(True), random_buffer=True,
+         needs_forward=True, warm_only=True)
+
+
+# ---- kernels with special inputs -----------------------------------------------------------------------
+def _unit_ball_data(arch, v):
+    dat = generic_data(arch, v)
+    dat["train_inputs"] = (dat["train_inputs"][0] / 5.0,)
+    dat["test_inputs"] = (dat["test_inputs"][0] / 5.0,)
+    return dat
+
+
+def _build_arc(arch, v, data):
+    D = Deco(arch["deco"], v)
+    bs = torch.Size(arch.get("batch", []))
+    base = K.MaternKernel(nu=2.5, batch_shape=bs, **D.kw("lengthscale"))
+    k = K.ArcKernel(base, ard_num_dims=arch["d"] if arch["ard"] else None, batch_shape=bs, **D.kw("angle", constraint=False), **D.kw("radius", constraint=False))
+    return finish_exact(arch, v, D, data, maybe_scale(arch, D, k))
+
+
+def _build_cylindrical(arch, v, data):
+    D = Deco(arch["deco"], v)
+    bs = torch.Size(arch.get("batch", []))
+    base = K.MaternKernel(nu=2.5, batch_shape=bs, **D.kw("lengthscale"))
+    k = K.CylindricalKernel(arch["weights"], base, batch_shape=bs, **D.kw("angular_weights"), **D.kw("alpha"), **D.kw("beta"))
+    return finish_exact(arch, v, D, data, maybe_scale(arch, D, k))
+
+
+def _hamming_data(arch, v):
+    n, ns, seq, vocab = arch["n"], arch["ns"], arch["seq"], arch["vocab"]
+    bs = list(arch.get("batch", []))
+
+    def cat(m):
+        idx = (v.t((m, seq), 0.0, 1.0) * vocab).long().clamp_max(vocab - 1)
+        return torch.nn.functional.one_hot(idx, vocab).reshape(m, seq * vocab).to(F64)
+
+    return {"train_inputs": (cat(n),), "y": v.t(bs + [n], -1.5, 1.5), "test_inputs": (cat(ns),), "test_noise": v.t((ns,), 0.05, 0.5),
+            "fixed_noise": v.t((n,), 0.05, 0.5)}
+
+
+def _build_hamming(arch, v, data):
+    D = Deco(arch["deco"], v)
+    bs = torch.Size(arch.get("batch", []))
+    k = K.HammingIMQKernel(vocab_size=arch["vocab"], batch_shape=bs, **D.kw("alpha"), **D.kw("beta"))
+    return finish_exact(dict(arch, mean="Constant" if arch["mean"] == "Linear" else arch["mean"]), v, D, data, maybe_scale(arch, D, k))
+
+
+def _dist_data(arch, v):
+    dat = generic_data(arch, v)
+    d = arch["d"]
+    dat["train_inputs"] = (torch.cat([dat["train_inputs"][0], v.t((arch["n"], d), -2.0, 0.0)], -1),)
+    dat["test_inputs"] = (torch.cat([dat["test_inputs"][0], v.t((arch["ns"], d), -2.0, 0.0)], -1),)
+    return dat
+
+
+def _build_dist(arch, v, data):
+    D = Deco(arch["deco"], v)
+    bs = torch.Size(arch.get("batch", []))
+    k = K.GaussianSymmetrizedKLKernel(batch_shape=bs, **D.kw("lengthscale"))
+    return finish_exact(dict(arch, mean="Constant" if arch["mean"] == "Linear" else arch["mean"]), v, D, data, maybe_scale(arch, D, k))
+
+
+register("exact.arc", "exact", "exact.kernels", _simple_arch(), _build_arc, data=_unit_ball_data)
+register("exact.cylindrical", "exact", "exact.kernels", _simple_arch(lambda p: {"weights": p.int(1, 4)}, d_choices=(2, 3)), _build_cylindrical,
+         data=_unit_ball_data)
+register("exact.hamming", "exact", "exact.kernels", _simple_arch(lambda p: {"vocab": p.int(2, 4), "seq": p.int(2, 4)}), _build_hamming, data=_hamming_data)
+register("exact.gaussian_symmetrized_kl", "exact", "exact.kernels", _simple_arch(d_choices=(1, 2)), _build_dist, data=_dist_data)
+
+
+# ---- composite kernels ---------------------------------------------------------------------------------
+LEAVES = ["RBF", "Matern", "RQ", "Periodic", "Linear", "Polynomial"]
+
+
+def _leaf(kind, arch, v, D):
+    d = arch["d"]
+    bs = torch.Size(arch.get("batch", []))
+    kw = {"batch_shape": bs}
+    if d >= 2 and v.f(0, 1) < 2.0 and arch.get("ad"):
+        kw["active_dims"] = v.dims(d, d - 1)
+    if kind == "RBF":
+        return K.RBFKernel(**kw, **D.kw("lengthscale"))
+    if kind == "Matern":
+        return K.MaternKernel(nu=1.5, **kw, **D.kw("lengthscale"))
+    if kind == "RQ":
+        return K.RQKernel(**kw, **D.kw("lengthscale"))
+    if kind == "Periodic":
+        return K.PeriodicKernel(**kw, **D.kw("lengthscale"), **D.kw("period_length"))
+    if kind == "Linear":
+        return K.LinearKernel(**kw, **D.kw("variance"))
+    if kind == "Polynomial":
+        return K.PolynomialKernel(power=2, **kw, **D.kw("offset"))
+    raise KeyError(kind)
+
+
+def _build_composite(op):
+    def build(arch, v, data):
+        D = Deco(arch["deco"], v)
+        parts = [_leaf(kd, arch, v, D) for kd in arch["parts"]]
+        parts = [K.ScaleKernel(k_, batch_shape=k_.batch_shape, **D.kw("outputscale")) if sc else k_ for k_, sc in zip(parts, arch["scaled"])]
+        k = parts[0]
+        for k2 in parts[1:]:
+            k = k + k2 if op == "add" else k * k2
+        if op == "mul":
+            k = k + K.ScaleKernel(K.RBFKernel(batch_shape=parts[0].batch_shape))  # keeps products of low-rank kernels full rank
+        return finish_exact(arch, v, D, data, k)
+
+    return build
+
+
+def _composite_arch(p):
+    a = base_arch(p, batch=True)
+    n = p.int(2, 3)
+    a.update(parts=[p.choice(LEAVES) for _ in range(n)], scaled=[p.bool() for _ in range(n)], ad=p.bool())
+    return a
+
+
+def _build_structure(kind):
+    def build(arch, v, data):
+        D = Deco(arch["deco"], v)
+        d = arch["d"]
+        if kind == "newton_girard":
+            base = K.RBFKernel(ard_num_dims=d, **D.kw("lengthscale"))
+            k = K.NewtonGirardAdditiveKernel(base, num_dims=d, max_degree=arch["degree"])
+        else:
+            base = K.RBFKernel(**D.kw("lengthscale")) if arch["leaf"] == "RBF" else K.MaternKernel(nu=2.5, **D.kw("lengthscale"))
+            k = (K.AdditiveStructureKernel if kind == "additive_structure" else K.ProductStructureKernel)(base, num_dims=d)
+        return finish_exact(arch, v, D, data, maybe_scale(arch, D, k))
+
+    return build
+
+
+def _structure_arch(p):
+    a = base_arch(p, d_choices=(2, 3))
+    a.update(leaf=p.choice(["RBF", "Matern"]), degree=p.int(1, 2), scale=p.bool())
+    return a
+
+
+register("exact.additive", "exact", "exact.kernels", _composite_arch, _build_composite("add"))
+register("exact.product", "exact", "exact.kernels", _composite_arch, _build_composite("mul"))
+register("exact.additive_structure", "exact", "exact.kernels", _structure_arch, _build_structure("additive_structure"))
+register("exact.product_structure", "exact", "exact.kernels", _structure_arch, _build_structure("product_structure"))
+register("exact.newton_girard", "exact", "exact.kernels", _structure_arch, _build_structure("newton_girard"))
 
 
 # ---------------------------------------------------------------------------------------------------
